@@ -392,14 +392,27 @@ def r_dump_atomic(ctx):
     ex = U.explorer(ctx, stm)
     res = U.full_run(ctx, stm)
     cfg = ex.cfg
+    # the in-memory snapshot: the attribute deserialize() wraps in BytesIO(..)
+    des = S.methods['deserialize']
+    mem_attr = None
+    for c in P.calls_in(des):
+        if unparse(c.func).endswith('BytesIO') and c.args and P.self_attr(c.args[0], des.self_name):
+            mem_attr = P.self_attr(c.args[0], des.self_name)
+    # (data, isFirst, isLast): the flags by their position in the unpacked parameter
+    last_var = None
+    for n in ast.walk(stm.node):
+        if isinstance(n, ast.Assign) and isinstance(n.targets[0], ast.Tuple) and len(n.targets[0].elts) == 3 and isinstance(n.value, ast.Name) and n.value.id == stm.params[1] \
+                and isinstance(n.targets[0].elts[2], ast.Name):
+            last_var = n.targets[0].elts[2].id
+    ctx.require(last_var, 'setTransmissionData no longer unpacks (data, isFirst, isLast)')
     done = [n.id for n in cfg.nodes if n.kind == 'stmt' and n.ast is not None and (
         any(isinstance(c, ast.Call) and unparse(c.func) in ('atomicReplace', 'os.rename', 'os.replace') for c in ast.walk(n.ast)) or
-        (isinstance(n.ast, ast.Assign) and P.self_attr(n.ast.targets[0], stm.self_name) and 'SerializedData' in (P.self_attr(n.ast.targets[0], stm.self_name) or '')))]
+        (isinstance(n.ast, ast.Assign) and mem_attr is not None and P.self_attr(n.ast.targets[0], stm.self_name) == mem_attr))]
     for n in cfg.nodes:
         if n.kind == 'stmt' and isinstance(n.ast, ast.Return) and isinstance(n.ast.value, ast.Constant) and n.ast.value.value is True:
             inst = 'install reported complete only after the last chunk was put in place'
             ctx.tick()
-            last_ok = all(any(l[0] == 'truthy' and l[2] and 'ast' in l[1].key.lower() for l in fs) for fs in res.facts_at(n.id)) and bool(res.facts_at(n.id))
+            last_ok = all(any(l[0] == 'truthy' and l[2] and l[1].key == last_var for l in fs) for fs in res.facts_at(n.id)) and bool(res.facts_at(n.id))
             if n.id in cfg.reachable_from(cfg.entry.id, avoid=done) or not last_ok:
                 ctx.violation('Serializer.setTransmissionData:complete-without-last-chunk', stm.loc(n.ast),
                               'the receiver reports a complete snapshot on a path that is not the last chunk / did not put the file in place', instance=inst)
